@@ -28,6 +28,20 @@ use std::collections::BTreeSet;
 
 pub struct Propagate;
 
+/// "with path and locations filled in" (rustdoc of `FieldError`): a field error is located at the
+/// name of the first field of its group; an argument-coercion error at the offending value (inside
+/// the field, after its name) or at the argument's definition in the schema, which the document's
+/// source map may not be able to render (then `locations` is empty).
+#[derive(Clone, Debug, PartialEq)]
+pub enum ErrLoc {
+    /// exactly one location: (line, column) of the field name
+    FieldName(usize, usize),
+    /// at most one location, not before the field name
+    Argument(usize, usize),
+    /// the field has no location (cannot happen for parsed documents)
+    Unknown,
+}
+
 pub struct Model<'a> {
     pub schema: &'a Valid<Schema>,
     pub doc: &'a Valid<ExecutableDocument>,
@@ -36,6 +50,8 @@ pub struct Model<'a> {
     pub early_exit: bool,
     pub introspection: bool,
     pub errors: Vec<String>,
+    /// parallel to `errors`: where the error must be located in the document
+    pub error_locs: Vec<ErrLoc>,
     pub calls: Vec<CallRec>,
     /// every position completed: path → declared type is non-null
     pub positions: BTreeMap<String, bool>,
@@ -210,8 +226,17 @@ impl<'a> Model<'a> {
         }
     }
 
-    fn error(&mut self, path: &str) {
+    fn error(&mut self, path: &str, fields: &[&'a Field]) {
         self.errors.push(path.to_string());
+        self.error_locs.push(match self.name_line_column(fields[0]) {
+            Some((l, c)) => ErrLoc::FieldName(l, c),
+            None => ErrLoc::Unknown,
+        });
+    }
+
+    fn name_line_column(&self, field: &Field) -> Option<(usize, usize)> {
+        let lc = field.name.location()?.line_column(&self.doc.sources)?;
+        Some((lc.line, lc.column))
     }
 
     /// Place a null at `path` if its type allows, else keep propagating
@@ -249,7 +274,11 @@ impl<'a> Model<'a> {
             Ok(a) => a,
             Err(()) => {
                 self.row("field.argument_coercion_error");
-                self.error(path);
+                self.errors.push(path.to_string());
+                self.error_locs.push(match self.name_line_column(field) {
+                    Some((l, c)) => ErrLoc::Argument(l, c),
+                    None => ErrLoc::Unknown,
+                });
                 return self.nullify(path, &def.ty, Err(Propagate));
             }
         };
@@ -265,16 +294,19 @@ impl<'a> Model<'a> {
                 Ok(Some(J::String(object_type.to_string())))
             }
             "__schema" | "__type" if is_query_root => {
+                if path.contains('/') {
+                    self.row("field.schema_meta_field_below_the_root");
+                }
                 if !self.introspection {
                     self.row("field.introspection_disabled");
-                    self.error(path);
+                    self.error(path, fields);
                     Err(Propagate)
                 } else {
                     self.row("field.introspection_enabled");
                     match self.introspect(field, &args, fields) {
                         Some(v) => {
                             if v.is_null() && def.ty.is_non_null() {
-                                self.error(path);
+                                self.error(path, fields);
                                 Err(Propagate)
                             } else {
                                 Ok(Some(v))
@@ -294,6 +326,7 @@ impl<'a> Model<'a> {
                     parent_type: object_type.to_string(),
                     field: field.name.to_string(),
                     args: J::Object(args),
+                    sels: super::sim::selection_ids(fields),
                 });
                 let outcome =
                     self.world
@@ -301,7 +334,7 @@ impl<'a> Model<'a> {
                 match outcome {
                     Err(_) => {
                         self.row("field.resolver_error");
-                        self.error(path);
+                        self.error(path, fields);
                         Err(Propagate)
                     }
                     Ok(v) => self.complete(path, &def.ty, v, fields),
@@ -326,7 +359,7 @@ impl<'a> Model<'a> {
             Val::Leaf(J::Null) => {
                 if ty.is_non_null() {
                     self.row("complete.null_for_non_null");
-                    self.error(path);
+                    self.error(path, fields);
                     Err(Propagate)
                 } else {
                     self.row("complete.null_for_nullable");
@@ -337,7 +370,7 @@ impl<'a> Model<'a> {
                 let inner = match ty {
                     Type::Named(_) | Type::NonNullNamed(_) => {
                         self.row("complete.list_for_named_type");
-                        self.error(path);
+                        self.error(path, fields);
                         return Err(Propagate);
                     }
                     Type::List(inner) | Type::NonNullList(inner) => inner,
@@ -358,7 +391,7 @@ impl<'a> Model<'a> {
                             // apollo-compiler: a failing list *iterator* ends completion of the
                             // list, and the failure is not contained by the item's nullability
                             // (unit test `test_error_path`)
-                            self.error(&ipath);
+                            self.error(&ipath, fields);
                             if failure.is_none() {
                                 failure = Some(Err(Propagate));
                             }
@@ -399,7 +432,7 @@ impl<'a> Model<'a> {
                 let name = match ty {
                     Type::List(_) | Type::NonNullList(_) => {
                         self.row("complete.leaf_for_list_type");
-                        self.error(path);
+                        self.error(path, fields);
                         return Err(Propagate);
                     }
                     Type::Named(n) | Type::NonNullNamed(n) => n,
@@ -442,7 +475,7 @@ impl<'a> Model<'a> {
                     Ok(Some(json))
                 } else {
                     self.row("complete.leaf_rejected_by_result_coercion");
-                    self.error(path);
+                    self.error(path, fields);
                     Err(Propagate)
                 }
             }
@@ -450,7 +483,7 @@ impl<'a> Model<'a> {
                 let name = match ty {
                     Type::List(_) | Type::NonNullList(_) => {
                         self.row("complete.object_for_list_type");
-                        self.error(path);
+                        self.error(path, fields);
                         return Err(Propagate);
                     }
                     Type::Named(n) | Type::NonNullNamed(n) => n,
@@ -475,7 +508,7 @@ impl<'a> Model<'a> {
                 };
                 if !ok {
                     self.row("complete.object_of_wrong_or_unknown_type");
-                    self.error(path);
+                    self.error(path, fields);
                     return Err(Propagate);
                 }
                 if fields.len() > 1 {
